@@ -40,13 +40,17 @@ NOTE = ("Trusted base: the dfmc explorer (self-tested by setup_cmd), the referen
         "bounds recorded in the evidence file; continuous quantifiers are covered only via the linearity arguments stated there.")
 
 
+# checks that are finished AND silent on the unchanged tree (apart from listed known findings)
+READY = set(open(os.path.join(V, "tools", "ready.txt")).read().split())
+
+
 def main():
     props = [json.loads(l) for l in open(os.path.join(V, "properties.jsonl"))]
     checks, na = [], []
     for p in props:
         pid = p["id"]
         mods = glob.glob(os.path.join(V, "checks", pid.lower() + "_*.py"))
-        if mods:
+        if mods and pid in READY:
             tech, ref = T[pid]
             checks.append({
                 "property_id": pid,
